@@ -66,6 +66,15 @@ def eval(
 
 def load(path: Union[str, DDSPath, pathlib.Path]) -> Any:
     path_ = DDSPathUtils.create(path)
+    if _eval_ctx is not None and path_ in _eval_ctx.requested_paths:
+        # The path is produced by the evaluation in progress. Its paths are only committed when the evaluation
+        # ends: until then the store serves the previous content of this path (or nothing).
+        key = _eval_ctx.requested_paths[path_]
+        if not _store().has_blob(key):
+            raise DDSException(
+                f"Path {path_} is loaded before the current evaluation has produced it"
+            )
+        return _store().fetch_blob(key)
     key = _store().fetch_paths([path_]).get(path_)
     if key is None:
         raise DDSException(f"The store {_store()} did not return path {path_}")
